@@ -47,8 +47,11 @@ mut('c03-3d-periodic-swap', 'C03', 'boundary.py', "        phiBC[i,j,k]= phi[:,0
 mut('c03-solvepde-noapply', 'C03', 'pdesolver.py', "    phi._value = TrackedArray(np.reshape(phi_new_values, phi.domain.dims+2))\n    phi.apply_BCs()\n", "    phi._value = TrackedArray(np.reshape(phi_new_values, phi.domain.dims+2))\n", 'solvePDE')
 mut('c04-solvepde-noapply', 'C04', 'pdesolver.py', "    phi._value = TrackedArray(np.reshape(phi_new_values, phi.domain.dims+2))\n    phi.apply_BCs()\n", "    phi._value = TrackedArray(np.reshape(phi_new_values, phi.domain.dims+2))\n", 'solvePDE')
 # ---- C04
-mut('c04-rhs-nocopy', 'C04', 'pdesolver.py', "    RHS = RHSbc.copy() # need to copy", "    RHS = RHSbc # need to copy", 'pdesolver.solvePDE')
-mut('c15-rhs-nocopy', 'C15', 'pdesolver.py', "    RHS = RHSbc.copy() # need to copy", "    RHS = RHSbc # need to copy", 'pdesolver.solvePDE')
+# dropping the protective copy of the cached boundary RHS is behaviour-preserving: solvePDE ends in apply_BCs(), which rebuilds
+# the cache (the first versions of C04.S1 / C15.Z2 demanded "no write into the cache" and flagged it: a false alarm, see DESIGN 9.5)
+mut('twin-c04-rhs-nocopy', 'C04', 'pdesolver.py', "    RHS = RHSbc.copy() # need to copy", "    RHS = RHSbc # need to copy", None)
+mut('twin-c15-rhs-nocopy', 'C15', 'pdesolver.py', "    RHS = RHSbc.copy() # need to copy", "    RHS = RHSbc # need to copy", None)
+M.append(dict(id='c04-rhs-nocopy-noapply', prop='C04', patch=os.path.join(VERIF, 'selftest', 'mutants', 'c04-rhs-nocopy-noapply.diff'), expect='pdesolver.solvePDE'))
 mut('c04-m-nocopy-twin', 'C04', 'pdesolver.py', "    M = Mbc.copy() # need to copy", "    M = Mbc # need to copy", None)
 mut('c04-order-f', 'C04', 'pdesolver.py', "TrackedArray(np.reshape(phi_new_values, phi.domain.dims+2))", "TrackedArray(np.reshape(phi_new_values, phi.domain.dims+2, order='F'))", 'solvePDE')
 mut('c04-minus', 'C04', 'pdesolver.py', "        elif term.ndim == 2:\n            M += term", "        elif term.ndim == 2:\n            M -= term", 'solvePDE')
